@@ -15,16 +15,18 @@ from .c10 import generated_variants
 from .siblings import Path as SimPath
 from .siblings import PathSim, _class_names, _strip, enum_builder_parity, enum_merge_parity, inline_tail_calls
 
-LEVEL = ("structural clauses: semantic facts of each enum builder and of each enum merge function, checked per sibling by simulating "
-         "its control flow under scenarios (null extraction by identity, only-null -> NoneProperty, single supported value type, null "
+LEVEL = ("structural clauses: semantic facts of each enum builder and of merge_properties per enum class (private helpers written out in "
+         "place wherever they are called, loops over constant tables unrolled, record fields and lambdas held in them followed; the merge "
+         "is simulated for every property class of the package on the other side), checked by simulating "
+         "the control flow under scenarios (null extraction by identity, only-null -> NoneProperty, single supported value type, null "
          "member -> nullable union, members from the null-free list, a taken class name reused only by the same class with the same "
          "member table, default converted before registration; subset merge in both directions, value-type compatibility); "
          "every store of a member name (paths of values_from_list simulated for int / str members x duplicate found / not) is preceded by a "
          "duplicate test on the very key that is stored or names an integer member injectively, a found duplicate ends in a "
          "diagnostic; closed decode (enum construct calls the class, the "
-         "literal check function tests membership and its fall-through raises, the const decoder - read as Python under every "
-         "assignment of the template conditions - raises whenever a present value differs from the constant), encode is "
-         ".value / identity in every encoder macro, str(<member>) only together with a __str__ of the generated class that returns the "
+         "literal check function tests membership and its fall-through raises, the const decoder - the code the macro generates under every "
+         "assignment of the template conditions, macro calls followed and `set` variables read as their definitions - raises whenever a "
+         "present value differs from the constant), encode is .value / identity in every encoder macro (same reading), str(<member>) only together with a __str__ of the generated class that returns the "
          "value; member values reach the class through a string context with a single escaping (label analysis of the "
          "emission site), Literal members through repr only; nobody adds to the declared values (every write to the enum field of a "
          "schema stores None or a selection of the old list).")
